@@ -23,7 +23,7 @@ META = {
                     "own Web-Mercator tile arithmetic used only for the bounds cross-check (1e-9 deg) and parent boxes"],
     "deciding": ["invariant:tiling", "post:get_index_of", "invariant:refinement"],
 }
-META["added"] = 'Added: special points (antimeridian, limits, beyond +-180) queried one by one, get_bbox clause, tile edges at exactly 0.0 probed within 1 ulp, clusters above threshold inside one maximum-zoom tile.'
+META["added"] = 'Added: special points (antimeridian, limits, beyond +-180) queried one by one, get_bbox clause, tile edges at exactly 0.0 probed within 1 ulp, clusters above threshold inside one maximum-zoom tile. array queries mixing inside and outside points, deep swarms refined to zoom 12-19 with a per-cell area clause.'
 MANIFEST = {
     "technique": "invariants on live QuadtreeGrid2D objects after each constructor (prefix-free quadkeys with dyadic measure 1 in exact integer arithmetic, bounds vs own tile arithmetic, refinement recount of every leaf and internal node, area sum) + post-condition on get_index_of vs brute-force exact containment on boundary-adjacent probes",
     "level_text": "Each constructed grid is checked as an object (tiling by exact dyadic measure, bounds, refinement criterion by recounting events per leaf and per internal node with the same half-open comparisons, cell areas) and every lookup of boundary-adjacent probe points is compared with the unique cell found by exact comparison against the grid's own bounds.",
@@ -99,6 +99,14 @@ def check_grid(ctx, reg, rc, tags, tiling, catalog=None, threshold=None, zoom=No
         if abs(area.sum() - want) > 1e-9 * want or numpy.any(area <= 0):
             ctx.violate("cell areas do not add up to the area of the covered latitude band", rc, observed=float(area.sum()), expected=want,
                         tags=dict(tags, clause="area"))
+        else:
+            # per cell: area of the spherical rectangle [lon0,lon1] x [lat0,lat1] (closed form), so that a deficit cannot hide in the global sum
+            ref = R_KM ** 2 * numpy.radians(bounds[:, 2] - bounds[:, 0]) * (numpy.sin(numpy.radians(bounds[:, 3])) - numpy.sin(numpy.radians(bounds[:, 1])))
+            badc = numpy.abs(area - ref) > 1e-6 * ref
+            if badc.any():
+                k = int(numpy.nonzero(badc)[0][0])
+                ctx.violate("a cell's area is not the area of its latitude-longitude box", rc, observed={"quadkey": qk[k], "area": float(area[k])},
+                            expected=float(ref[k]), tags=dict(tags, clause="area-cell", zero=bool(area[k] == 0), depth=len(qk[k])))
     if catalog is not None:
         ctx.mon("invariant:refinement", 1)
         lon = numpy.asarray(catalog.get_longitudes(), dtype=float)
@@ -194,6 +202,23 @@ def check_lookup(ctx, reg, rc, tags, rng, tiling):
             else:
                 ob, ex = {"returned": int(got.size)}, {"queried": int(sub.size), "cell0_points": int((first[sub] == 0).sum())}
             ctx.violate("array lookup does not return the containing cell of every point", rc, observed=ob, expected=ex, tags=dict(tags, clause="lookup-array"))
+    # array query mixing points that lie in no cell with points that do, in arbitrary order: points without a cell are returned as
+    # "no match" (dropped), every other point still gets its own cell - the answer for a point must not depend on its neighbours in the batch
+    if out.size and ins.size:
+        mix = numpy.concatenate([out[rng.permutation(out.size)[:15]], ins[rng.permutation(ins.size)[:40]]])
+        mix = mix[rng.permutation(mix.size)]
+        if cnt[mix[0]] != 0:                                 # make sure an outside point comes first at least every other time
+            j0 = int(numpy.nonzero(cnt[mix] == 0)[0][0])
+            mix[0], mix[j0] = mix[j0], mix[0]
+        ok, got, tb = ctx.call(reg.get_index_of, lon[mix], lat[mix])
+        ctx.mon("post:get_index_of", 1)
+        want = first[mix][cnt[mix] >= 1]
+        if not ok:
+            ctx.violate("get_index_of raised", rc, observed=repr(got), tb=tb, tags=dict(tags, clause="lookup-raised", form="mixed-array"))
+        elif numpy.asarray(got).shape != want.shape or not numpy.array_equal(numpy.asarray(got), want):
+            ctx.violate("array lookup mixing points inside and outside the grid does not return the containing cell of every inside point", rc,
+                        observed={"returned": numpy.asarray(got)[:8], "n": int(numpy.asarray(got).size)}, expected={"cells": want[:8], "n": int(want.size)},
+                        tags=dict(tags, clause="lookup-array-mixed"))
     # scalar / single-element queries, inside and outside
     special = numpy.nonzero(numpy.isin(lon, [-180.0, 180.0, 0.0]) | (numpy.abs(lat) == LAT_LIM) | (lon >= 180.0) | (lon < -180.0))[0]
     special = special[rng.permutation(special.size)[:60]]
@@ -226,6 +251,13 @@ def _catalog(rng, kind, zoom):
         lon, lat = rng.uniform(-180, 180, n), rng.uniform(-85, 85, n)
     elif kind == "point":
         lon, lat = numpy.full(n, float(rng.uniform(-180, 180))), numpy.full(n, float(rng.uniform(-80, 80)))
+    elif kind == "deepcluster":
+        # a tight swarm (a few hundred metres) far from the equator / Greenwich: the refinement runs down to the maximum zoom in one spot
+        n = int(rng.integers(20, 60))
+        c = [float(rng.choice([20.0, 179.99, -179.99, -120.3])), float(rng.choice([80.0, -78.0, 60.5, 84.9]))]
+        lon = c[0] + rng.uniform(-1, 1, n) * 2e-3
+        lat = c[1] + rng.uniform(-1, 1, n) * 5e-4
+        lon = numpy.clip(lon, -180.0, 179.9999999)
     else:  # events exactly on tile boundaries of several zooms
         z = int(rng.integers(1, max(2, zoom) + 1))
         qks = ["".join(str(d) for d in rng.integers(0, 4, z)) for _ in range(n)]
@@ -357,6 +389,8 @@ def run(ctx):
         kind = ["cluster", "uniform", "point", "edges", "edges"][j % 5]
         thr = int(r.choice([1, 2, 10, 100]))
         zoom = int(r.integers(1, 11 if thorough else 8))
+        if j % 10 == 7:
+            kind, thr, zoom = "deepcluster", int(r.choice([1, 2, 5])), int(r.integers(12, 20))
         ex_catalog(ctx, kind, thr, zoom, seed=int(r.integers(0, 10 ** 9)))
         if j % 30 == 0:
             ctx.sample({"ctor": "from_catalog", "kind": kind, "threshold": thr, "max_zoom": zoom})
